@@ -337,9 +337,15 @@ def showExit : Exit → String
 def showHosts (h : List (String × String)) : String :=
   if h.isEmpty then "-" else ",".intercalate (h.map fun kv => hexStr kv.1 ++ "=" ++ hexStr kv.2)
 
-/-- `session <method> <resolvectl> <startedFails> <body6> <nbody6> <pf6> <body4> <nbody4> <pf4> <line>…` -/
+/-- `session <method> <resolvectl> <startedFails> <body6> <nbody6> <pf6> <body4> <nbody4> <pf4> <text> <line>…`
+`<text>` = the bytes on the control channel (hex); one `<line>` token per chunk of it, in order (the
+unfinished last chunk included).  How many of them are lines is decided here by the reader model. -/
 def runSession (s : St) : List String → Option (St × List String)
-  | m :: rc :: sf :: b6 :: n6 :: p6 :: b4 :: n4 :: p4 :: lines => do
+  | m :: rc :: sf :: b6 :: n6 :: p6 :: b4 :: n4 :: p4 :: text :: lines => do
+    let raw ← bytesOfHex text
+    let nl := (readerLines raw).length
+    if nl > lines.length then none
+    let lines := lines.take nl
     let m ← parseMethod m
     let b6 ← parseBody b6
     let n6 ← parseNBody n6
@@ -391,7 +397,8 @@ def step (s : St) (line : String) : St × List String :=
       ("TPROXY_RESTORE_NONFATAL_F", Gen.C04.TPROXY_RESTORE_NONFATAL_F),
       ("TPROXY_RESTORE_NONFATAL_X", Gen.C04.TPROXY_RESTORE_NONFATAL_X),
       ("NFT_RESTORE_NONFATAL", Gen.C04.NFT_RESTORE_NONFATAL),
-      ("PF_LOADED_INIT", Gen.C04.PF_LOADED_INIT)].map fun kv => kv.1 ++ "=" ++ b01 kv.2)])
+      ("PF_LOADED_INIT", Gen.C04.PF_LOADED_INIT),
+      ("FW_READER_DROPS_UNFINISHED", Gen.C04.FW_READER_DROPS_UNFINISHED)].map fun kv => kv.1 ++ "=" ++ b01 kv.2)])
   | ["state"] => (s, [showState s.env.st])
   | ["trace"] => (s, [showTrace s.env.log])
   | ["hosts"] => (s, [showHosts s.env.hosts])
